@@ -373,6 +373,32 @@ func TestC11(t *testing.T) {
 		each(&ref.ANode{Kind: "cond", A: three, B: three, C: tr})
 		each(&ref.ANode{Kind: "bin", Op: "+", A: tr, B: &ref.ANode{Kind: "asg", Op: "=", S: "y", A: three}})
 	}
+	// operands that are not evaluated, nested hundreds of levels deep, with an
+	// effect or a fault at the bottom: nothing of it is to be seen
+	one, zero, two := &ref.ANode{Kind: "num", S: "1"}, &ref.ANode{Kind: "num", S: "0"}, &ref.ANode{Kind: "num", S: "2"}
+	for _, depth := range []int{127, 128, 255, 256, 257, 512, 1024} {
+		for bi, bottom := range []*ref.ANode{
+			{Kind: "asg", Op: "=", S: "x", A: three},
+			{Kind: "postinc", S: "y"},
+			{Kind: "bin", Op: "/", A: one, B: zero},
+		} {
+			for form := 0; form < 4; form++ {
+				tr := bottom
+				for d := 0; d < depth; d++ {
+					switch f := form; {
+					case f == 0 || f == 3 && d%3 == 0:
+						tr = &ref.ANode{Kind: "bin", Op: "||", A: one, B: tr}
+					case f == 1 || f == 3 && d%3 == 1:
+						tr = &ref.ANode{Kind: "bin", Op: "&&", A: zero, B: tr}
+					default:
+						tr = &ref.ANode{Kind: "cond", A: zero, B: tr, C: two}
+					}
+				}
+				_ = bi
+				each(tr)
+			}
+		}
+	}
 	for _, tr := range d1 {
 		for _, op := range c11Unops {
 			each(&ref.ANode{Kind: "un", Op: op, A: tr})
